@@ -1,0 +1,104 @@
+//go:build verif
+
+package kmipserver
+
+// Contracts for the gocv verifier (see /verif/DESIGN.md). Comment-only; compiled only with -tags verif.
+
+// ---------------------------------------------------------------------------
+// middleware chains (C19): ghost record of the last middleware / core invocation
+
+//@ ghostvar mwCalls int
+//@ ghostvar mwSelf kmipserver.Middleware
+//@ ghostvar mwNext kmipserver.Next
+//@ ghostvar mwCtx context.Context
+//@ ghostvar mwMsg *kmip.RequestMessage
+//@ ghostvar mwRet *kmip.ResponseMessage
+//@ ghostvar mwErr error
+//@ ghostvar coreCalls int
+//@ ghostvar coreCtx context.Context
+//@ ghostvar coreMsg *kmip.RequestMessage
+//@ ghostvar coreRet *kmip.ResponseMessage
+//@ ghostvar coreErr error
+
+// An arbitrary message middleware: may do anything with its arguments (including calling next any number
+// of times); it does not write the chain state of the executor.
+//@ functype kmipserver.Middleware
+//@   params next, ctx, msg
+//@   results r, e
+//@   pure
+//@   ghost mwCalls = old(mwCalls) + 1
+//@   ghost mwSelf = self
+//@   ghost mwNext = next
+//@   ghost mwCtx = ctx
+//@   ghost mwMsg = msg
+//@   ghost mwRet = r
+//@   ghost mwErr = e
+
+//@ func (*BatchExecutor).handleRequest
+//@   requires exec != nil && req != nil
+//@   pure
+//@   ghost coreCalls = old(coreCalls) + 1
+//@   ghost coreCtx = ctx
+//@   ghost coreMsg = req
+//@   ghost coreRet = r0
+//@   ghost coreErr = r1
+
+// The continuation for stage i of the message chain (built by nextAt).
+//@ func (*BatchExecutor).nextAt$1
+//@   requires exec != nil && rm != nil && 0 <= i && (i < len(exec.middlewares) ==> exec.middlewares[i] != nil)
+//@   ensures i < len(exec.middlewares) ==> mwCalls == old(mwCalls)+1 && coreCalls == old(coreCalls) && mwSelf == exec.middlewares[i] && mwCtx == ctx && mwMsg == rm && r0 == mwRet && r1 == mwErr
+//@   ensures i < len(exec.middlewares) ==> isclosure(mwNext, "(*BatchExecutor).nextAt$1") && capt(mwNext, "i") == i+1 && capt(mwNext, "exec") == exec
+//@   ensures i >= len(exec.middlewares) ==> mwCalls == old(mwCalls) && coreCalls == old(coreCalls)+1 && coreCtx == ctx && coreMsg == rm && r0 == coreRet && r1 == coreErr
+//@   ensures i == old(i) && exec == old(exec)
+//@   ghostmod mwCalls, mwSelf, mwNext, mwCtx, mwMsg, mwRet, mwErr, coreCalls, coreCtx, coreMsg, coreRet, coreErr
+//@   pure
+
+// batch-item chain
+//@ ghostvar biCalls int
+//@ ghostvar biSelf kmipserver.BatchItemMiddleware
+//@ ghostvar biNext kmipserver.BatchItemNext
+//@ ghostvar biCtx context.Context
+//@ ghostvar biItem *kmip.RequestBatchItem
+//@ ghostvar biRet *kmip.ResponseBatchItem
+//@ ghostvar biErr error
+//@ ghostvar itemCalls int
+//@ ghostvar itemCtx context.Context
+//@ ghostvar itemItem *kmip.RequestBatchItem
+//@ ghostvar itemRet *kmip.ResponseBatchItem
+//@ ghostvar itemErr error
+
+//@ functype kmipserver.BatchItemMiddleware
+//@   params next, ctx, bi
+//@   results r, e
+//@   pure
+//@   ghost biCalls = old(biCalls) + 1
+//@   ghost biSelf = self
+//@   ghost biNext = next
+//@   ghost biCtx = ctx
+//@   ghost biItem = bi
+//@   ghost biRet = r
+//@   ghost biErr = e
+
+//@ func (*BatchExecutor).executeItem
+//@   requires exec != nil && bi != nil
+//@   ensures resp != nil
+//@   pure
+//@   ghost itemCalls = old(itemCalls) + 1
+//@   ghost itemCtx = ctx
+//@   ghost itemItem = bi
+//@   ghost itemRet = resp
+//@   ghost itemErr = err
+
+//@ func (*BatchExecutor).itemNextAt$1
+//@   requires exec != nil && 0 <= i && bi != nil && (i < len(exec.biMiddlewares) ==> exec.biMiddlewares[i] != nil)
+//@   ensures i < len(exec.biMiddlewares) ==> biCalls == old(biCalls)+1 && itemCalls == old(itemCalls) && biSelf == exec.biMiddlewares[i] && biCtx == ctx && biItem == bi && r0 == biRet && r1 == biErr
+//@   ensures i < len(exec.biMiddlewares) ==> isclosure(biNext, "(*BatchExecutor).itemNextAt$1") && capt(biNext, "i") == i+1 && capt(biNext, "exec") == exec
+//@   ensures i >= len(exec.biMiddlewares) ==> biCalls == old(biCalls) && itemCalls == old(itemCalls)+1 && itemCtx == ctx && itemItem == bi && r0 == itemRet && r1 == itemErr && r0 != nil
+//@   ensures i == old(i) && exec == old(exec)
+//@   ghostmod biCalls, biSelf, biNext, biCtx, biItem, biRet, biErr, itemCalls, itemCtx, itemItem, itemRet, itemErr
+//@   pure
+
+//@ func (*BatchExecutor).executeItemWithMiddleware
+//@   requires exec != nil && bi != nil && ctx != nil && (0 < len(exec.biMiddlewares) ==> exec.biMiddlewares[0] != nil)
+//@   ensures len(exec.biMiddlewares) == 0 ==> itemCalls == old(itemCalls)+1 && itemCtx == ctx && itemItem == bi
+//@   ghostmod biCalls, biSelf, biNext, biCtx, biItem, biRet, biErr, itemCalls, itemCtx, itemItem, itemRet, itemErr
